@@ -282,7 +282,11 @@ def roundtrip(m, ctx, generic: bool, *, reference=None, check_clone=True, check_
            "fixpoint_only": False}
     S = out["symptoms"]
     tab0 = dict(_blob_table())
-    c0 = resolve_resources(canon_ir(m), tab0)
+    try:
+        c0 = resolve_resources(canon_ir(m), tab0)
+    except Exception as e:  # noqa: BLE001 - only reachable when an earlier (crashed) print left the IR half-edited
+        S.append({"symptom": "ir-unreadable-before-print", "exc": type(e).__name__, "site": exc_site(e), "msg": str(e)[:200]})
+        return out
     out["canon"] = c0
     try:
         t1 = pr(m, ctx)
@@ -344,7 +348,8 @@ def roundtrip(m, ctx, generic: bool, *, reference=None, check_clone=True, check_
                     ctx3, m3 = parse_fresh(t2)
                     t3 = pr(m3, ctx3)
                 except Exception as e:  # noqa: BLE001
-                    S.append({"symptom": "reprint-not-reparseable", "exc": type(e).__name__, "msg": str(e)[-200:]})
+                    S.append({"symptom": "reprint-differs", "fixpoint": True, "detail": "the second print does not re-parse",
+                              "exc": type(e).__name__, "msg": str(e)[-200:]})
                 else:
                     if t3 != t2:
                         S.append({"symptom": "reprint-differs", "detail": _first_text_diff(t2, t3), "fixpoint": True})
